@@ -61,11 +61,15 @@ def dayOfWeek (d : Date) : Option Nat :=
 
 def addDays : Nat → Date → Option Date
   | 0, d => some d
-  | n + 1, d => (next d).bind (addDays n)
+  | n + 1, d => match next d with
+    | none => none
+    | some d' => addDays n d'
 
 def subDays : Nat → Date → Option Date
   | 0, d => some d
-  | n + 1, d => (prev d).bind (subDays n)
+  | n + 1, d => match prev d with
+    | none => none
+    | some d' => subDays n d'
 
 inductive DRes where
   | ok (d : Date)
@@ -155,6 +159,26 @@ def parseDate (cs : List Nat) : Option Date := do
       let (d, cs) ← parseNum cs true
       if d < 1 ∨ d > monthLen m y then none else
       if cs = [] then some { year := y, month := m, day := d } else none
+    | _ => none
+  | _ => none
+
+/-- the lexer's `@…` scanner (`lexer.rs::parse_date`): ASCII digits, `-`, digits, `-`, digits;
+returns the literal text and what follows it -/
+def scanDate (cs : List Nat) : Option (List Nat × List Nat) :=
+  let isDigit (c : Nat) : Bool := 48 ≤ c && c ≤ 57
+  let d1 := cs.takeWhile isDigit
+  let r1 := cs.dropWhile isDigit
+  if d1 = [] then none else
+  match r1 with
+  | 45 :: r1 =>
+    let d2 := r1.takeWhile isDigit
+    let r2 := r1.dropWhile isDigit
+    if d2 = [] then none else
+    match r2 with
+    | 45 :: r2 =>
+      let d3 := r2.takeWhile isDigit
+      let r3 := r2.dropWhile isDigit
+      if d3 = [] then none else some (d1 ++ [45] ++ d2 ++ [45] ++ d3, r3)
     | _ => none
   | _ => none
 
